@@ -40,10 +40,16 @@ for `calls = cs.map toCall`, statements about the run of the translated methods 
 
 COVERED calls (the methods are translated, `Gen/Writer.lean`): start_file, start_file_with_extra_data, write
 (`write_all`), end_local_start_central_extra_data, end_extra_data, add_directory, add_symlink, set_comment,
-finish, drop.  NOT YET covered: `Call.startFileAligned` (start_file_aligned) and `Call.rawCopy`
-(raw_copy_file_rename) - being translated separately (helper t6w2) - and scripts that start from
-`ZipWriter::new_append` instead of `new` (`grun_sim` is stated for every start object with `Inv`, so it
-applies once `new_append`'s result is shown to satisfy `Inv`).
+finish, drop.  NOT YET covered: `Call.startFileAligned` - start_file_aligned is translated and tied RELATIVE to its
+four callees on a state predicate `I` closed under them (`Tie/Aligned.lean`, `CalleeSims ext I`); the side
+conditions (3) are not closed under `write` (they are re-assumed before every call here), so plugging it in needs
+`FitsRun` extended to the inner calls of that method -; `Call.rawCopy` (raw_copy_file_rename, not translated
+yet); scripts that start from `ZipWriter::new_append` instead of `new` (`grun_sim` is stated for every start
+object with `Inv`, so it applies once `new_append`'s result - `Tie/AppendOpen.lean` - is shown to satisfy `Inv`).
+
+The vocabulary `Rs.S.switch_to` the generated methods call is PROVED equal to the translated
+`GenericZipWriter::switch_to` (`Tie/SwitchTo.lean`), `Rs.S.zc_finish` is linked with the translated
+`ZipCryptoWriter::finish` (`Tie/ZcFinish.lean`).
 
 The arguments of a `GCall` are generated values (`Gen.FileOptions`); `toCall` maps them with `optOf`.  The model's
 alphabet is larger (compression levels outside `i32`): those calls have no Rust counterpart.
